@@ -372,3 +372,21 @@ Proof.
               right. exists n. split; [now right | assumption].
            ++ inversion H; subst. now left.
 Qed.
+
+(** loading never removes a TRC *)
+Lemma load_trcs_grows now files : forall s loaded ignored e l i s',
+  load_trcs now files s loaded ignored = (e, l, i, s') -> forall t, In t s -> In t s'.
+Proof.
+  induction files as [|[name f] r IH]; intros s loaded ignored e l i s' H t Ht; cbn [load_trcs] in H.
+  - now inversion H; subst.
+  - destruct f as [|u].
+    + now inversion H; subst.
+    + destruct (now <? t_nb u)%Z.
+      * eapply IH; eauto.
+      * destruct (insert_trc s u) as [ir s1] eqn:I.
+        destruct (insert_trc_cases _ _ _ _ I) as [[-> ->]|[Hne ->]].
+        -- eapply IH; eauto. apply in_or_app. now left.
+        -- destruct ir; try contradiction.
+           ++ eapply IH; eauto.
+           ++ now inversion H; subst.
+Qed.
